@@ -363,7 +363,7 @@ func runC20(c *Ctx) {
 			switch {
 			case isConstStr(st.Val):
 				R.OK("C20.R2", key, cons, pos, "constant")
-			case isCallTo(st.Val, "strings.Join") != nil:
+			case projectionJoin(st.Val):
 				R.OK("C20.R2", key, cons, pos, "projection of the old value (joined filtered tokens)")
 			case constBuilt(st.Val):
 				R.OK("C20.R2", key, cons, pos, "assembled from constants only")
@@ -375,7 +375,7 @@ func runC20(c *Ctx) {
 					for _, e := range ph.Edges {
 						es := A.Sym.Of(e)
 						// each merged value on its own merits: URL normalisation, a constant, a projection
-						if !(vu != nil && strings.Contains(es, pa.CalleeName(vu)+"(")) && !isConstStr(e) && isCallTo(e, "strings.Join") == nil && !constBuilt(e) {
+						if !(vu != nil && strings.Contains(es, pa.CalleeName(vu)+"(")) && !isConstStr(e) && !projectionJoin(e) && !constBuilt(e) {
 							all = false
 						}
 					}
